@@ -11,6 +11,7 @@ from __future__ import annotations
 import copy
 import math
 import random as _random
+from fractions import Fraction
 from itertools import accumulate
 
 from pyabv import stats
@@ -126,12 +127,18 @@ def run(ctx):
         vec = random_vector(rnd)
         n = len(vec)
         w = [to_number(t) for t in vec]
+        scale = None
+        if rnd.random() < 0.06 and all(abs(x) <= 10**6 for x in w):
+            # the same shares at the top of the float range (totals up to ~1e307 are finite, and so is every product a
+            # straightforward implementation forms: u * total < total)
+            scale = rnd.choice([10**300, 1e300, 10**40, 2.0**900])
+            w = [x * scale for x in w]
         pop = random_population(rnd, n)
         use_gold = rnd.random() < 0.3
         uid = rnd.choice(gold_ids) if use_gold else rnd.choice(["u%d" % rnd.randrange(10**9), "", "é", "x" * 100, str(rnd.random()), " u%d" % rnd.randrange(99), "%d\n" % rnd.randrange(99),
                                                                    " ", "\tid ", "a b"])
         special = n >= 2 and (use_gold or any(x == 0 for x in w))
-        conf = dict(input_id=uid, population_type=type(pop).__name__, n=n, weights=vec)
+        conf = dict(input_id=uid, population_type=type(pop).__name__, n=n, weights=vec, scale=repr(scale))
 
         def bad(kind, mech, **more):
             ctx.violation(kind, dict(conf, **more), mechanism=mech)
@@ -147,7 +154,7 @@ def run(ctx):
             continue
         # the selected element against the exact partition (same oracle as C03, on the public function)
         k = bucket.position_of_key(uid)
-        part = bucket.Partition([frac(t) for t in vec])
+        part = bucket.Partition([frac(t) * (Fraction(scale) if scale else 1) for t in vec])
         idxs = [i for i, x in enumerate(pop) if x is r_w[1]]
         if not any(i in part.allowed(k) for i in idxs):
             bad("selected-outside-partition", "C16/wrong-element", k=k, got_indices=idxs, allowed=sorted(part.allowed(k)))
@@ -238,6 +245,17 @@ def run(ctx):
             ]
             if n >= 1:
                 malformed.append(("weights-empty", dict(weights=[]), "ValueError"))
+            # two faults at once: the error is the one random.choices itself reports for these arguments
+            for dname, dk in (("both-kinds+weights-short", dict(weights=list(w)[:-1], cum_weights=cw)),
+                              ("both-kinds+cum-long", dict(weights=list(w), cum_weights=cw + [cw[-1] + 1])),
+                              ("both-kinds+both-short", dict(weights=list(w)[:-1], cum_weights=cw[:-1])),
+                              ("both-kinds+total-zero", dict(weights=[0] * n, cum_weights=[0] * n)),
+                              ("cum-longer+total-inf", dict(cum_weights=cw + [float("inf")]))):
+                try:
+                    _random.choices(list(pop), k=1, **dk)
+                    continue
+                except Exception as e:  # noqa: BLE001
+                    malformed.append((dname, dk, type(e).__name__))
             name, kwargs, want = malformed[ci % len(malformed)]
             if name in ("weights-shorter", "cum-shorter") and n == 1:
                 name, kwargs, want = malformed[0]
